@@ -302,6 +302,9 @@ func (e *Env) useLemma(fr *Frame, reach string, h *Hint, where string) string {
 }
 
 func (vc *VC) ghostPoint(fr *Frame, st *State, reach, when, what string, ordinal int, callee string) {
+	if vc.replayMode {
+		return
+	}
 	top := fr
 	if top.spec == nil {
 		return
@@ -1303,7 +1306,7 @@ func (vc *VC) canInline(fr *Frame, callee *ssa.Function) bool {
 		return true
 	}
 	// automatic: small loop-free functions without defers
-	if len(callee.Blocks) > 6 {
+	if len(callee.Blocks) > 16 {
 		return false
 	}
 	n := 0
@@ -1321,7 +1324,7 @@ func (vc *VC) canInline(fr *Frame, callee *ssa.Function) bool {
 			}
 		}
 	}
-	return n <= 60
+	return n <= 150
 }
 
 func (vc *VC) inlineCall(fr *Frame, st *State, reach string, callee *ssa.Function, args []Val, fnv *Val, instr ssa.Instruction) Val {
@@ -1938,7 +1941,7 @@ func (vc *VC) checkFuncArgs(fr *Frame, spec *FuncSpec, callee *ssa.Function, com
 				if f != nil {
 					got = vc.P.fnKeys[f]
 				}
-				vc.specErrors = append(vc.specErrors, fmt.Sprintf("%s: the contract of %s used at %s is specialised for %s = %s, but the argument is %s", fr.key, key, posOf(fr, common.Value.(ssa.Instruction)), pn, want, got))
+				vc.specErrors = append(vc.specErrors, fmt.Sprintf("%s: the contract of %s used at %s is specialised for %s = %s, but the argument is %s", fr.key, key, posOfCommon(fr, common), pn, want, got))
 			}
 			continue
 		}
@@ -1966,7 +1969,6 @@ func (vc *VC) checkFuncArgs(fr *Frame, spec *FuncSpec, callee *ssa.Function, com
 		vc.specErrors = append(vc.specErrors, fmt.Sprintf("%s: the contract of %s requires argument %s to refine %s; the argument is not a function known statically", fr.key, key, pn, want))
 	}
 }
-
 
 // madeIface: the concrete types that occur as the operand of a MakeInterface instruction somewhere in the
 // repository (the only way a value of that dynamic type can come into existence)
@@ -1998,7 +2000,6 @@ func (P *Prog) madeIface() map[string]bool {
 	}
 	return P.madeIfaceSet
 }
-
 
 // externRefFree reports whether a call to a library function can be treated as free of effects on the state the
 // contracts describe: the callee is not one of the process-wide effectful functions and every argument is
@@ -2097,4 +2098,20 @@ func refFreeValue(v ssa.Value, depth int) bool {
 		return true
 	}
 	return false
+}
+
+
+func posOfCommon(fr *Frame, common *ssa.CallCommon) string {
+	if in, ok := common.Value.(ssa.Instruction); ok {
+		return posOf(fr, in)
+	}
+	p := fr.fn.Prog.Fset.Position(common.Pos())
+	if !p.IsValid() {
+		return ""
+	}
+	f := p.Filename
+	if i := strings.LastIndex(f, "/"); i >= 0 {
+		f = f[i+1:]
+	}
+	return fmt.Sprintf("%s:%d", f, p.Line)
 }
